@@ -7,9 +7,8 @@
                                 predicates live in the field ZMod p, so the hypothesis appears as an instance argument)
     `G  : EdwardsGroupLaw`      closure + associativity of the affine addition on curve points (true, not proved
                                 here; commutativity, neutral element, inverses, completeness ARE proved)
-    `NibblesOf s a`             the scalar unit's obligation: `Scalar::nibbles` of `s` are the 64 radix-16 digits
-                                of `a < 2^255`
-  Theorems that need `G` or `NibblesOf` carry the suffix `_partial`.
+  Theorems that need `G` carry the suffix `_partial`.  (`NibblesOf s a` — `Scalar::nibbles` of `s` are the radix-16
+  digits of `a < 2^255` — is a theorem: Proofs/Ed25519Inst.lean, from unit scalar64's `nibbles_eq_radix16`.)
 
   Representation predicates (Proofs/GeRefine.lean): `GeOk g P` = all limbs of `g` are `Tight` (< 2^51 + 2^17) and
   `(X:Y:Z:T)` read modulo p represents the affine point `P` (X = xZ, Y = yZ, T = xyZ, Z ≠ 0); likewise
@@ -17,6 +16,7 @@
 -/
 import CxVerif.Proofs.GeComb
 import CxVerif.Proofs.GeBytes
+import CxVerif.Proofs.Ed25519Inst
 namespace Cx.Props.C15
 set_option maxRecDepth 10000
 open Cx Cx.Spec Cx.Impl.Ge Cx.Proofs.EdSpec Cx.Proofs.GeRefine
@@ -144,14 +144,16 @@ theorem select_is_signed_table_entry [hp : Fact (Nat.Prime p)] (pos : Nat) (b : 
 
 /-- FULL STATEMENT (not proved): for every scalar `s` with value `a < 2^255`,
     `scalarmult_base(s).to_bytes() = encode([a]B)` — unconditionally.
-    PROVED: the same under the hypotheses `Nat.Prime p`, `EdwardsGroupLaw` (closure + associativity of the affine
-    law) and `NibblesOf s a` (correctness of `Scalar::nibbles`, owned by the scalar unit). No panic, output Tight. -/
+    PROVED: the same under the hypotheses `Nat.Prime p` and `EdwardsGroupLaw` (closure + associativity of the affine
+    law), for every scalar inside unit scalar64's limb invariant `Inv` (every `Scalar::from_bytes` result) with value
+    below 2^255.  No panic, output Tight. -/
 theorem scalarmult_base_is_smul_B_partial [hp : Fact (Nat.Prime p)] (G : EdwardsGroupLaw)
-    (s : Impl.Scalar64.Scalar) (a : Nat) (hn : Proofs.GeComb.NibblesOf s a) :
-    ∃ h, Ge.scalarmult_base s = some h ∧ GeOk h (smul a B) ∧ h.to_bytes = some (Edwards.encode (smul a B)) := by
+    (s : Impl.Scalar64.Scalar) (hs : Proofs.Scalar64.Inv s) (ha : s.val < 2 ^ 255) :
+    ∃ h, Ge.scalarmult_base s = some h ∧ GeOk h (smul s.val B) ∧
+      h.to_bytes = some (Edwards.encode (smul s.val B)) := by
   have : Proofs.GeComb.GroupLawFact := ⟨G⟩
-  obtain ⟨h, e, ok⟩ := Proofs.GeComb.scalarmult_base_ok s a hn
-  have hc : OnCurve (smul a B) := smul_onCurve G a B Proofs.Ge.B_spec.1
+  obtain ⟨h, e, ok⟩ := Proofs.GeComb.scalarmult_base_ok s s.val (Proofs.Ed25519Inst.nibblesOf s hs ha)
+  have hc : OnCurve (smul s.val B) := smul_onCurve G s.val B Proofs.Ge.B_spec.1
   obtain ⟨hx, hy, _⟩ := (onCurve_iff _).1 hc
   exact ⟨h, e, ok, Proofs.GeBytes.ge_to_bytes_ok h _ ok hx hy⟩
 
